@@ -46,7 +46,8 @@ def run(chk, replay=None):
     if len(cases) < 20000:
         raise MachineryError('Gen produced %d files' % len(cases))
     if quick:
-        cases = cases[chk.seed % 7::7]
+        pick = random.Random(chk.seed * 7919 + 2)
+        cases = [c for c in cases if pick.random() < 1.0 / 7]
 
     def layout(ver):
         return EV_V1 if ver == 1 else EV_V2
